@@ -216,7 +216,8 @@ class MCSimulationFixedTimes(MCSimulation, SimulationFixedTimes):
         for k, sliceStates in enumerate(values):
             if sliceStates.shape[0]:
                 definitive_values[k] = sliceStates[-1]
-        return definitive_values
+        # the chain restarts at the origin in every interval: cumulate the interval totals
+        return np.cumsum(definitive_values)
 
     def simulate_jumps(self):
         mc = self.simulate_markov_chain()
